@@ -1,5 +1,5 @@
 \* C06 quick: simulated histories with encode/decode/concatenation
-\* run by hand:  cd spec && tlc -workers 8 RunGenSketch.tla -config cfg/C06__RunGenSketch__simulated_histories_with_encode_decode_concatenation.cfg -simulate num=150 -depth 13 -seed 2   (root module generated by the harness: see the .tla file next to this one; copy it to spec/ first)
+\* run by hand:  cd spec && tlc -workers 8 RunGenSketch.tla -config cfg/C06__RunGenSketch__simulated_histories_with_encode_decode_concatenation.cfg -simulate num=150 -depth 13 -seed 1   (root module generated by the harness: see the .tla file next to this one; copy it to spec/ first)
 INIT GenInit
 NEXT GenNext
 CONSTANTS
